@@ -7,7 +7,7 @@
    destroyed exactly once or handed back exactly once. *)
 From Coq Require Import List NArith Permutation.
 From Truc.Model Require Import Layout Builder Ir Gen Exec Ops.
-From Truc.Proofs Require Import ExecP Holds.
+From Truc.Proofs Require Import ExecP Holds Life.
 From Truc.Current Require Runtime.
 Import ListNotations.
 
@@ -35,8 +35,28 @@ Theorem C06_conversion_drops : forall (minus : list nat) (vals : nat -> nat),
   Permutation (droppable_of TI (rev (map (fun i => (nm ds i, (Some (vals i), ty ds i))) minus)))
               (map vals (filter (dr ds TI) minus)).
 Proof. intros. apply droppable_tokens. Qed.
+
+(* the whole life of a record: after ANY sequence of reads and writes through the generated accessors,
+   the generated Drop destroys what is left - the values destroyed on the way (d) plus those destroyed by
+   Drop are, as a multiset, exactly the droppable values that entered the record (at creation or by a
+   write): each once, none twice, none leaked.  No step faults. *)
+Theorem C06_lifecycle_drop : forall ops vals b v,
+  holds ds TI cap A data vals b -> Forall (fun o => In (lop_field o) data) ops ->
+  exists b' d dropped, life ds TI rt b ops = Ok (b', d) /\ op_drop ds TI rt A cap v data b' = Ok (ONone, dropped) /\
+    Permutation (d ++ dropped) (map vals (filter (dr ds TI) data) ++ written_in ds TI ops).
+Proof. exact (life_then_drop ds TI rt A cap RT data L). Qed.
+
+(* same life ended by unpack: nothing more is destroyed, what is handed back is exactly what is still owed *)
+Theorem C06_lifecycle_unpack : forall ops vals b v,
+  holds ds TI cap A data vals b -> Forall (fun o => In (lop_field o) data) ops ->
+  exists b' vals' d, life ds TI rt b ops = Ok (b', d) /\
+    op_unpack ds TI rt A cap v data b' = Ok (OUnpacked (map (fun i => (nm ds i, Some (vals' i))) data), []) /\
+    Permutation (d ++ map vals' (filter (dr ds TI) data)) (map vals (filter (dr ds TI) data) ++ written_in ds TI ops).
+Proof. exact (life_then_unpack ds TI rt A cap RT data L). Qed.
 End C06.
 Print Assumptions C06_drop.
+Print Assumptions C06_lifecycle_drop.
+Print Assumptions C06_lifecycle_unpack.
 Print Assumptions C06_conversion_drops.
 
 Theorem C06_current : rt_ok Runtime.exec_rt = true.
@@ -51,4 +71,15 @@ Example C06_nonvacuous :
   | Ok (ORecord r, _) => op_drop ex_ds ex_ti rt_fixed 8 48 0 [0; 1]%nat r
   | _ => Fault (Static 0)
   end = Ok (ONone, [101; 100]%nat).
+Proof. vm_compute. reflexivity. Qed.
+
+Example C06_lifecycle_nonvacuous :
+  match op_new ex_ds ex_ti rt_fixed 8 48 0 [0; 1]%nat (fun i => (100 + i)%nat) with
+  | Ok (ORecord r, _) =>
+      match life ex_ds ex_ti rt_fixed r [LSet 0 7; LGet 1 false; LSet 0 8; LSet 1 9]%nat with
+      | Ok (r', d) => match op_drop ex_ds ex_ti rt_fixed 8 48 0 [0; 1]%nat r' with Ok (_, dropped) => Some (d, dropped) | _ => None end
+      | _ => None
+      end
+  | _ => None
+  end = Some ([100; 7; 101], [9; 8])%nat.
 Proof. vm_compute. reflexivity. Qed.
